@@ -64,9 +64,12 @@ impl Script {
                         let f = match p[1].as_str().unwrap() {
                             "Interrupted" => Fault::Interrupted,
                             "Pending" => Fault::Pending,
-                            s if s.contains("BrokenPipe") => Fault::Hard(io::ErrorKind::BrokenPipe),
-                            s if s.contains("UnexpectedEof") => Fault::Hard(io::ErrorKind::UnexpectedEof),
-                            _ => Fault::Hard(io::ErrorKind::Other),
+                            s => {
+                                use io::ErrorKind::*;
+                                let kinds = [NotFound, PermissionDenied, ConnectionRefused, ConnectionReset, ConnectionAborted, NotConnected, AddrInUse, AddrNotAvailable, BrokenPipe, AlreadyExists, WouldBlock, InvalidInput, InvalidData, TimedOut, WriteZero, UnexpectedEof, Unsupported, OutOfMemory, Other];
+                                let k = kinds.iter().copied().find(|k| s == format!("Hard({:?})", k)).unwrap_or(Other);
+                                Fault::Hard(k)
+                            }
                         };
                         (i, f)
                     })
